@@ -7,7 +7,8 @@ _KCB = ("one concrete queried address; the cache holds at most one account (the 
         "concrete keys (address / keys fixed so that CBMC constant-folds the std HashMap probes under a fixed SipHash seed); symbolic: "
         "AccountState (all four), every bit of the slot values / cached balance, nonce, code hash, the inner database's answers (Ok / Err); "
         "AccountInfo.code == None; unwind 34")
-_KCB_ARGS = ["--no-assertion-reach-checks", "--cbmc-args", "--max-field-sensitivity-array-size", "2048"]
+# (-Z unstable-options: vf/kani.py's concrete-playback command does not pass it, and --cbmc-args needs it)
+_KCB_ARGS = ["-Z", "unstable-options", "--no-assertion-reach-checks", "--cbmc-args", "--max-field-sensitivity-array-size", "2048"]
 _KANI_CACHEDB = [dict(crate="kcachedb", harness=f"cachedb::{h}", bounded=True, bound=_KCB, timeout=600, mem_gb=8, args=_KCB_ARGS)
                  for h in ("has_storage_not_cached", "has_storage_cached_0", "has_storage_cached_1")]
 _KANI_CACHEDB += [dict(crate="kcachedb", harness=f"cachedb::{h}", bounded=True, bound=_KCB, timeout=600, mem_gb=8, args=_KCB_ARGS,
